@@ -305,6 +305,19 @@ theorem c04_cargo_target_tables :
     strIn Generated.dependencyTables (cargoSection "workspace.dependencies".toList) = true := by
   refine ⟨?_, ?_, ?_, ?_⟩ <;> decide
 
+/-- a renamed dependency is checked under its `package` name (F-C04-4, fixed):
+    `a = { package = "b", version = "1" }` is crate `b`, version `1`, located at the `1` -/
+theorem c04_cargo_renamed_example :
+    let content := "a = { package = \"b\", version = \"1\" }".toList
+    let nd (kind : String) (sb eb : Nat) (cs : List Node) : Node :=
+      .mk { kind := kind, sb := sb, eb := eb, sr := 0, sc := sb, er := 0, ec := eb, field := none, named := true, missing := false } cs
+    let pair := nd "pair" 0 36 [nd "bare_key" 0 1 [], nd "=" 2 3 [],
+      nd "inline_table" 4 36 [nd "{" 4 5 [],
+        nd "pair" 6 19 [nd "bare_key" 6 13 [], nd "=" 14 15 [], nd "string" 16 19 []], nd "," 19 20 [],
+        nd "pair" 21 34 [nd "bare_key" 21 28 [], nd "=" 29 30 [], nd "string" 31 34 []], nd "}" 35 36 []]]
+    (cargoPair content pair).map (fun p => (p.name, p.version, p.startOffset, p.endOffset)) =
+      some ("b".toList, "1".toList, 32, 33) := by decide
+
 /-- **deviation (F-C04-8)**: `[dependencies.<name>]` sub-tables are not dependency tables -/
 theorem c04_deviation_cargo_subtables :
     strIn Generated.dependencyTables (cargoSection "dependencies.serde".toList) = false := by decide
